@@ -6,6 +6,10 @@
 #![allow(dead_code)]
 extern crate libz_sys;
 
+mod api;
+mod einf;
+mod gen;
+mod guard;
 mod json;
 mod props;
 mod refimpl;
@@ -116,6 +120,10 @@ fn main() {
             let o = replay_case(&prop, &ctx, ph, &tape);
             if let Some(s) = &o.sample {
                 println!("CASE {}", s.to_string());
+            }
+            if let Some(m) = &o.internal {
+                println!("INTERNAL-ERROR {}", m);
+                std::process::exit(2);
             }
             if let Some(f) = o.fail {
                 println!("FAIL sig={} msg={}", f.sig, f.msg);
